@@ -9,6 +9,9 @@ overrides).  Used by tools/refactor_fuzz.py (all properties) and by the thorough
   T6 drop else after a body that always leaves;  T7 the inverse (what follows becomes the else)
   T8 first call argument extracted into a local:  f(g(x))  ->  _a0 = g(x); f(_a0)
   T9 two adjacent independent call-free assignments swapped;  T10 `else: pass` added to every if without else
+  T11 second half of a function body extracted into a new module-level helper ("extract method")
+  T12 the value of the first call-holding assignment / return extracted into a helper function
+  T13 second half of a method body extracted into a new private method of the same class
 """
 from __future__ import annotations
 
@@ -243,7 +246,161 @@ def t10_else_pass(fn):
     return done
 
 
-KINDS = {'T9': t9_swap_assigns, 'T10': t10_else_pass, 'T1': t1_rename, 'T2': t2_invert, 'T3': t3_name_return, 'T4': t4_split_and, 'T6': t6_drop_else, 'T7': t7_add_else,
+def _module_of(fn):
+    top = fn
+    p = getattr(fn, '_parent', None)
+    while p is not None and not isinstance(p, ast.Module):
+        top = p
+        p = getattr(p, '_parent', None)
+    return p, top
+
+
+def _extractable(fn):
+    """function whose statements may move to a module-level helper: no closure over an enclosing function, no
+    global / nonlocal, no yield, no zero-argument super(), no locals()/vars()/exec"""
+    p = getattr(fn, '_parent', None)
+    while p is not None and not isinstance(p, ast.Module):
+        if isinstance(p, (ast.FunctionDef, ast.AsyncFunctionDef, ast.Lambda)):
+            return False
+        p = getattr(p, '_parent', None)
+    for n in ast.walk(fn):
+        if isinstance(n, (ast.Global, ast.Nonlocal, ast.Yield, ast.YieldFrom, ast.Await)):
+            return False
+        if isinstance(n, ast.Name) and n.id in ('super', 'locals', 'vars', 'exec', 'eval', '__class__'):
+            return False
+    return True
+
+
+def _local_names(fn):
+    params = [a.arg for a in fn.args.posonlyargs + fn.args.args + fn.args.kwonlyargs]
+    if fn.args.vararg:
+        params.append(fn.args.vararg.arg)
+    if fn.args.kwarg:
+        params.append(fn.args.kwarg.arg)
+    return params
+
+
+def _bound_in(stmts):
+    out = set()
+    for st in stmts:
+        for n in ast.walk(st):
+            if isinstance(n, ast.Name) and isinstance(n.ctx, (ast.Store, ast.Del)):
+                out.add(n.id)
+            elif isinstance(n, ast.ExceptHandler) and n.name:
+                out.add(n.name)
+            elif isinstance(n, (ast.Import, ast.ImportFrom)):
+                for a in n.names:
+                    out.add((a.asname or a.name).split('.')[0])
+            elif isinstance(n, (ast.FunctionDef, ast.ClassDef)):
+                out.add(n.name)
+    return out
+
+
+def t11_extract_tail(fn):
+    """the second half of the function body moves to a new module-level helper:
+         def f(p): A; B      ->      def _xt_f(<locals B reads>): B      def f(p): A; return _xt_f(<the same names>)"""
+    if not _extractable(fn):
+        return False
+    body = fn.body
+    start = 1 if (body and isinstance(body[0], ast.Expr) and isinstance(body[0].value, ast.Constant)) else 0
+    if len(body) - start < 2:
+        return False
+    cut = start + (len(body) - start) // 2
+    head, tail = body[:cut], body[cut:]
+    mod, top = _module_of(fn)
+    if mod is None:
+        return False
+    local = set(_local_names(fn)) | _bound_in(head)
+    # order of first use keeps the signature deterministic
+    used = []
+    for st in tail:
+        for n in ast.walk(st):
+            if isinstance(n, ast.Name) and n.id in local and n.id not in used:
+                used.append(n.id)
+    name = '_xt_' + fn.name.strip('_')
+    helper = ast.FunctionDef(name=name, args=ast.arguments(posonlyargs=[], args=[ast.arg(arg=u) for u in used], vararg=None,
+                                                           kwonlyargs=[], kw_defaults=[], kwarg=None, defaults=[]),
+                             body=tail, decorator_list=[], returns=None, type_comment=None, lineno=fn.lineno)
+    try:
+        helper.type_params = []
+    except Exception:
+        pass
+    fn.body = head + [ast.Return(value=ast.Call(func=ast.Name(id=name, ctx=ast.Load()),
+                                                args=[ast.Name(id=u, ctx=ast.Load()) for u in used], keywords=[]))]
+    mod.body.insert(mod.body.index(top), helper)
+    return True
+
+
+def t12_extract_value(fn):
+    """the value of the first assignment / return whose value holds a call moves to a helper function:
+         v = e      ->      def _xv_f(<locals e reads>): return e      v = _xv_f(<the same names>)"""
+    if not _extractable(fn):
+        return False
+    mod, top = _module_of(fn)
+    if mod is None:
+        return False
+    local = set(_local_names(fn)) | _bound_in(fn.body)
+    for b in _blocks(fn):
+        for st in b:
+            if isinstance(st, (ast.Assign, ast.Return)) and st.value is not None \
+                    and any(isinstance(x, ast.Call) for x in ast.walk(st.value)) \
+                    and not any(isinstance(x, (ast.Lambda, ast.GeneratorExp, ast.ListComp, ast.SetComp, ast.DictComp,
+                                               ast.NamedExpr, ast.Starred)) for x in ast.walk(st.value)):
+                used = []
+                for n in ast.walk(st.value):
+                    if isinstance(n, ast.Name) and n.id in local and n.id not in used:
+                        used.append(n.id)
+                name = '_xv_' + fn.name.strip('_')
+                helper = ast.FunctionDef(name=name, args=ast.arguments(posonlyargs=[], args=[ast.arg(arg=u) for u in used],
+                                                                       vararg=None, kwonlyargs=[], kw_defaults=[], kwarg=None,
+                                                                       defaults=[]),
+                                         body=[ast.Return(value=st.value)], decorator_list=[], returns=None, type_comment=None,
+                                         lineno=fn.lineno)
+                try:
+                    helper.type_params = []
+                except Exception:
+                    pass
+                st.value = ast.Call(func=ast.Name(id=name, ctx=ast.Load()), args=[ast.Name(id=u, ctx=ast.Load()) for u in used],
+                                    keywords=[])
+                mod.body.insert(mod.body.index(top), helper)
+                return True
+    return False
+
+
+def t13_extract_method(fn):
+    """the second half of a METHOD body moves to a new private method of the same class:
+         def m(self, p): A; B   ->   def _xm_m(self, <locals B reads>): B      def m(self, p): A; return self._xm_m(<the same>)"""
+    cls = getattr(fn, '_parent', None)
+    if not isinstance(cls, ast.ClassDef) or not fn.args.args or fn.decorator_list or not _extractable(fn):
+        return False
+    recv = fn.args.args[0].arg
+    body = fn.body
+    start = 1 if (body and isinstance(body[0], ast.Expr) and isinstance(body[0].value, ast.Constant)) else 0
+    if len(body) - start < 2:
+        return False
+    cut = start + (len(body) - start) // 2
+    head, tail = body[:cut], body[cut:]
+    local = (set(_local_names(fn)) | _bound_in(head)) - {recv}
+    used = []
+    for st in tail:
+        for n in ast.walk(st):
+            if isinstance(n, ast.Name) and n.id in local and n.id not in used:
+                used.append(n.id)
+    name = '_xm_' + fn.name.strip('_')
+    helper = ast.FunctionDef(name=name, args=ast.arguments(posonlyargs=[], args=[ast.arg(arg=recv)] + [ast.arg(arg=u) for u in used],
+                                                           vararg=None, kwonlyargs=[], kw_defaults=[], kwarg=None, defaults=[]),
+                             body=tail, decorator_list=[], returns=None, type_comment=None, lineno=fn.lineno)
+    try:
+        helper.type_params = []
+    except Exception:
+        pass
+    fn.body = head + [ast.Return(value=ast.Call(func=ast.Attribute(value=ast.Name(id=recv, ctx=ast.Load()), attr=name, ctx=ast.Load()),
+                                                args=[ast.Name(id=u, ctx=ast.Load()) for u in used], keywords=[]))]
+    cls.body.insert(cls.body.index(fn) + 1, helper)
+    return True
+
+
+KINDS = {'T13': t13_extract_method, 'T11': t11_extract_tail, 'T12': t12_extract_value, 'T9': t9_swap_assigns, 'T10': t10_else_pass, 'T1': t1_rename, 'T2': t2_invert, 'T3': t3_name_return, 'T4': t4_split_and, 'T6': t6_drop_else, 'T7': t7_add_else,
          'T8': t8_extract_arg}
 
 
